@@ -40,7 +40,7 @@ HOSTILE_IDS = ['<b', 'A&B', '"x"', "<i>", 'a<b']
 def tier_config(tier):
     if tier == 'thorough':
         return {'runs': 30000, 'wall': 820, 'det_probe': 4}
-    return {'runs': 800, 'wall': 110, 'det_probe': 3}
+    return {'runs': 3000, 'wall': 150, 'det_probe': 3}
 
 
 def generate(rng, tier, run, seed=0):
